@@ -98,6 +98,13 @@ CHECKS["C27"] = {
     "note": "Trusts the ~40-line binder in vf/props/c27_macro_with.py. Argument values are string literals and one late-bound variable; expression-valued arguments are covered by C01/C02 templates.",
 }
 
+CHECKS["C10"] = {
+    "technique": "exhaustive constructive-reference testing: piece sequences x hyphen flags",
+    "text": "Sources are assembled from 141 piece variants (texts with every ASCII whitespace character and markup-like fragments; output, echo, raw, comment, doc, inline comment, liquid and {# #} pieces with every left/right hyphen combination on outer and inner delimiters); the expected output is constructed piece by piece (text verbatim, raw body verbatim, comments nothing, a hyphen strips only the adjacent text). All sequences up to 3 pieces are enumerated in the thorough tier (2M sources), up to 2 plus a 1/60 slice of length 3 in quick, plus random longer sequences.",
+    "design_ref": "DESIGN.md §4 C10",
+    "note": "Default delimiters and the template_comments environment only (custom delimiters are C11). Hyphens on inner raw/comment/doc delimiters are expected to have no effect.",
+}
+
 NOT_APPLICABLE = [
     {"property_id": p, "reason": "check not built yet in this round (work in progress; see DESIGN.md §4 for the planned oracle)"}
     for p in ALL
